@@ -239,11 +239,11 @@ impl Space {
 }
 
 pub fn setup_interp(g: &[GridNum]) -> Interp {
-    let mut it = Interp::new().expect("interpreter construction");
+    let mut it = Interp::must_new();
     for (i, x) in g.iter().enumerate() {
         let o = it.eval(&format!("(define g{} {})", i, x.text));
         if !matches!(o, Outcome::Val(_)) {
-            panic!("grid binding g{} = {} failed: {}", i, x.text, o);
+            crate::drive::impl_fail(&format!("the grid binding (define g{} {}) => {}", i, x.text, o));
         }
     }
     it
